@@ -293,7 +293,22 @@ def check_case(case, rec=None):
             lim = hw.lut_start_bank(accel, lb is not None) * hw.SHRAM_BANK_BYTES
             sh = T.writer[csdec.SHRAM_REGION]
             sh[:lim] = NONE
-        # outputs of the ethos-u operator are now defined by whoever wrote them; CPU consumers are not part of the property
+        # what this ethos-u operator hands back: every byte of its output tensors must have been written by the stream, all by producers of one and the
+        # same tensor (a weight buffer or another feature map written over part of an output is the same defect as a foreign read, seen from the host side)
+        for t in nop.outputs:
+            o = art.offset(t)
+            if o is None or o < 0:
+                continue
+            sl = slice(o, o + art.nbytes(t))
+            wr, idn = T.writer[1][sl], T.ident[1][sl]
+            if np.any(wr == NONE):
+                raise Violation("C03/output-undefined", "ethos-u operator %d returns tensor %s with %d byte(s) nothing wrote" % (nop.index, art.tensors[t]["name"], int((wr == NONE).sum())), case, tags_c)
+            if use_labels:
+                ids = set(int(v) for v in np.unique(idn[wr > 0]))
+                if len(ids) > 1:
+                    last = int(wr[np.nonzero(idn != np.bincount(idn[wr > 0]).argmax())[0][0]])
+                    raise Violation("C03/output-clobbered", "ethos-u operator %d returns tensor %s whose bytes were last written as %d different tensors, e.g. by %s" % (
+                        nop.index, art.tensors[t]["name"], len(ids), infos.get(last)), case, tags_c)
     if rec is not None:
         rec.cls("walked")
         for ft in feats:
